@@ -505,7 +505,8 @@ def _read_dir(img, meta, ino, path):
     while remaining > 0:
         if remaining < 12:
             raise ParseError("directory listing of %r: %d stray bytes" % (path, remaining))
-        hpos = (cur.block, cur.off, consumed)
+        _r = cur.ref()
+        hpos = (_r >> 16, _r & 0xFFFF, consumed)
         cnt, start, inum = struct.unpack("<III", cur.read(12))
         remaining -= 12
         consumed += 12
@@ -754,13 +755,49 @@ def _validate_global(img):
             img.facts["uncompressed_meta_blocks"] += 1
     # padding / bytes_used
     img.facts["file_len"] = len(d)
-    # directory table full-except-last
+    # end of the last table == bytes_used
+    NONE = 0xFFFFFFFFFFFFFFFF
+    if sb["xattr_table"] != NONE:
+        cnt = img.facts.get("xattr_sets", 0)
+        last_end = sb["xattr_table"] + 16 + ((cnt * 16 + META - 1) // META) * 8
+    else:
+        last_end = sb["id_table"] + ((sb["id_count"] * 4 + META - 1) // META) * 8
+    img.check("sb.bytes-used-is-end-of-last-table", sb["bytes_used"] == last_end, "superblock",
+              "bytes_used %d, last table ends at %d" % (sb["bytes_used"], last_end))
+    # directory table: blocks are full except the last one, and it ends where the next table's data starts
     pos = sb["dir_table"]
-    end = sb["frag_table"] if sb["frag_table"] != 0xFFFFFFFFFFFFFFFF else None
+    nxt_tables = [v for k, v in sb.items() if k in ("frag_table", "export_table", "id_table") and v != NONE]
+    limit = min(nxt_tables) if nxt_tables else None
+    dir_blocks = sorted(p for p in img.meta_blocks if p >= sb["dir_table"] and (limit is None or p < limit))
+    # follow the chain from dir_table
+    chain = []
+    p = sb["dir_table"]
+    seen_any = bool(dir_blocks)
+    while p in img.meta_blocks and seen_any:
+        hdr, stored, unc = img.meta_blocks[p]
+        chain.append((p, unc))
+        p = p + 2 + stored
+    for i, (bp, unc) in enumerate(chain):
+        # only blocks that are followed by another *directory* block must be full
+        if i + 1 < len(chain):
+            img.check("meta.dir-block-full", unc == META or not _is_dir_block(img, chain[i + 1][0]), "directory table block at %d" % bp, "%d bytes" % unc)
     # root
     root = img.tree.get(b"")
     if root is not None:
         img.check("dir.root-parent-field", True, "root")
+
+
+def _is_dir_block(img, pos):
+    """True if some directory listing starts in or continues into the metadata block at pos."""
+    cache = img.__dict__.setdefault("_dirblocks", None)
+    if cache is None:
+        cache = set()
+        base = img.sb["dir_table"]
+        for path, headers in img.dir_layout.items():
+            for (blk, off, consumed), cnt, start, inum, ents in headers:
+                cache.add(base + blk)
+        img.__dict__["_dirblocks"] = cache
+    return pos in cache
 
 
 def tree_model(img):
